@@ -23,26 +23,26 @@ type CrashCfg struct {
 	Unstable bool
 	Profile  string
 	Avoid    map[string]bool
-	Loss     int  // random loss sets per window (besides none / each single / all-but-last)
-	Stride   int  // probe every Stride-th event boundary (1 = all)
-	Cont     int  // number of continuation segments (crash, then keep serving)
-	Nested   int  // number of nested recovery-crash experiments
+	Loss     int // random loss sets per window (besides none / each single / all-but-last)
+	Stride   int // probe every Stride-th event boundary (1 = all)
+	Cont     int // number of continuation segments (crash, then keep serving)
+	Nested   int // number of nested recovery-crash experiments
 	MaxProbe int
 }
 
 type CrashProbe struct {
-	Ev       string `json:"ev"` // "crashprobe"
-	P        int    `json:"p"`
-	NLost    int    `json:"nlost"`
-	Window   int    `json:"window"`
-	Acked    int    `json:"acked"`
-	Invoked  int    `json:"invoked"`
-	OK       bool   `json:"ok"`
-	Err      string `json:"err"`
-	Count    int    `json:"count"` // crash images with this same outcome
-	Depth    int    `json:"depth"`
-	Dump     *Dump  `json:"dump"`
-	Snap     *Snap  `json:"snap"`
+	Ev       string  `json:"ev"` // "crashprobe"
+	P        int     `json:"p"`
+	NLost    int     `json:"nlost"`
+	Window   int     `json:"window"`
+	Acked    int     `json:"acked"`
+	Invoked  int     `json:"invoked"`
+	OK       bool    `json:"ok"`
+	Err      string  `json:"err"`
+	Count    int     `json:"count"` // crash images with this same outcome
+	Depth    int     `json:"depth"`
+	Dump     *Dump   `json:"dump"`
+	Snap     *Snap   `json:"snap"`
 	Inflight []*Call `json:"inflight"`
 }
 
